@@ -83,7 +83,7 @@ class Contract:
     def __init__(self, qual, *, params=None, requires=(), ensures=(), modifies=(), loops=None, raises=None,
                  result=None, short=None, setup=None, replay=None, ghost=None, ghost_at=None, lets=None,
                  frame_fields=None, trusted=False, note="", raises_iff=False, prop=None, inline=(), region=None,
-                 ensures_raise=None, variant=None, witness=None):
+                 ensures_raise=None, variant=None, witness=None, ghost_entry=(), decreases=None, ghost_exit=()):
         self.qual = qual
         self.params = params or {}
         self.requires = list(requires)
@@ -110,6 +110,9 @@ class Contract:
         self.inline = set(inline)
         self.region = region
         self.witness = witness
+        self.ghost_entry = list(ghost_entry)
+        self.decreases = decreases
+        self.ghost_exit = list(ghost_exit)
 
     # ---- spec evaluation
     def spec_frame(self, fr):
@@ -136,6 +139,9 @@ class Contract:
         for s in mod.body:
             if isinstance(s, ast.Assign) and isinstance(s.targets[0], ast.Name):
                 st.ghost[s.targets[0].id] = ex.ev(s.value, st, sf)
+            elif isinstance(s, ast.Assign) and isinstance(s.targets[0], ast.Attribute):
+                base = ex.ev(s.targets[0].value, st, sf)
+                base.fields[s.targets[0].attr] = ex.ev(s.value, st, sf)
             elif isinstance(s, ast.If):
                 c = ex.ev(s.test, st, sf)
                 if ex.decide(st, c):
@@ -175,6 +181,10 @@ class Contract:
             for j, r in enumerate(self.requires):
                 g = self.eval_spec(ex, r, cs, callee_fr)
                 ex.oblige(st, f"{tag}.pre.{j}", g, "call-pre", line, r)
+            if self.decreases and ex.current is not None and ex.current.qual == self.qual and "__dec0" in st.ghost:
+                d1 = z3ify(self.eval_spec(ex, self.decreases, cs, callee_fr))
+                d0 = st.ghost["__dec0"]
+                ex.oblige(st, f"{tag}.decreases", z3.And(d0 >= 0, d1 < d0), "decreases", line, self.decreases)
             # exceptional exits
             for exc, cond in self.raises.items():
                 c = self.eval_spec(ex, cond, cs, callee_fr)
@@ -479,6 +489,8 @@ class PyvcExecutor(StmtMixin, Executor):
             if r[0] in (NORMAL, RETURN):
                 returns += 1
                 st.locals["result"] = r[1] if r[0] == RETURN else None
+                for gs in c.ghost_exit:
+                    c.exec_ghost(self, gs, st, fr)
                 for j, e in enumerate(c.ensures):
                     g = c.eval_spec(self, e, st, fr)
                     self.oblige(st, f"{tag}.post.{j}@{sig}", g, "post", None, e)
@@ -557,6 +569,10 @@ class PyvcExecutor(StmtMixin, Executor):
                 eqs.append(self.witness_eq(cur, val))
             self.pre_info = {"pc": list(st.pc), "witness": st.pc[:n_before] + eqs, "goal": conj(reqs),
                              "witness_text": {k: str(v) for k, v in c.witness.items()}}
+        for gs in c.ghost_entry:
+            c.exec_ghost(self, gs, st, fr)
+        if c.decreases:
+            st.ghost["__dec0"] = z3ify(c.eval_spec(self, c.decreases, st, fr))
         old = State()
         old.locals = copy.deepcopy(st.locals)
         old.ghost = dict(st.ghost)
